@@ -389,6 +389,8 @@ class RelativeOperand(Operand):
         if not instruction.is_short_branch and not instruction.is_long_branch:
             raise OperandTypeError("[{}] is not a branch instruction".format(instruction.mnemonic))
         self.operand_string = operand_string
+        if operand_string[:1] in ["#", "<", ">"]:
+            raise OperandTypeError("[{}] is not a branch target".format(operand_string))
         self.value = value if value else Value.create_from_str(operand_string, instruction)
 
     def translate(self):
@@ -509,6 +511,8 @@ class ExtendedIndexedOperand(Operand):
             raise OperandTypeError("[{}] is not an extended indexed value".format(operand_string))
         try:
             stripped_operand_string = operand_string[1:-1]
+            if stripped_operand_string.startswith("#"):
+                raise OperandTypeError("[{}] is not an extended indexed value".format(operand_string))
             self.value = Value.create_from_str(stripped_operand_string, self.instruction)
         except ValueTypeError:
             raise OperandTypeError("[{}] is not an extended indexed value".format(operand_string))
